@@ -862,3 +862,29 @@ Proof.
   split; [exact C|]. unfold get, set_cache; sproj. rewrite C.
   unfold contains in Nc. change (idx (pushed E s k v)) with (idx s). destruct (klookup k (idx s)); [discriminate|reflexivity].
 Qed.
+
+(* ------------------------------------------------------------------ no size gate on the verified path.
+   The unverified RecordStore::put refuses values of max_value_bytes or more; put_verified does not look
+   at the size at all, and neither does the disk path of get: whether a validated record is accepted
+   depends on the key (capacity, distance) only, never on the value -- apart from the same-value
+   shortcut -- and an accepted one of ANY length is readable (settled_reads_latest has no size premise). *)
+Lemma put_verified_has_no_size_gate_lemma E s k v v' t t' :
+  klookup k (cache s) <> Some v -> klookup k (cache s) <> Some v' ->
+  fst (put_verified E s k v t) = fst (put_verified E s k v' t').
+Proof.
+  intros Nv Nv'.
+  destruct (put_verified_cases E s k v t) as [[Ec _]| ->]; [congruence|].
+  destruct (put_verified_cases E s k v' t') as [[Ec _]| ->]; [congruence|].
+  unfold put_slow, prune. rewrite !pushed_idx, !pushed_farthest.
+  destruct (len (idx s) <? e_max_records E); [reflexivity|].
+  destruct (farthest s) as [[f fd]|]; [|reflexivity].
+  destruct (fd <? e_dist E k); reflexivity.
+Qed.
+
+Lemma disk_read_has_no_size_gate_lemma E s k v : dec_enc E ->
+  klookup k (cache s) = None -> contains s k = true ->
+  flookup (fname k) (files s) = Some (file_bytes E k v) -> get E s k = Some v.
+Proof.
+  intros DE Hc Hi Hf. unfold get. rewrite Hc. unfold contains in Hi.
+  destruct (klookup k (idx s)); [|discriminate]. rewrite Hf. now apply read_file_bytes.
+Qed.
